@@ -43,6 +43,23 @@ def _ts(d):
     return dt.datetime.fromisoformat(d)
 
 
+# numbers of names n for which the float 1/n is judged differently by the three obvious ways of writing "n weights of at most limit cannot
+# add up to one" (limit < 1/n, 1/limit > n, limit x n < 1): where a caller and a callee may disagree about the same cap
+FEASIBILITY_TESTS_DISAGREE = [n for n in range(2, 200) if len({(1.0 / n) < 1.0 / n, 1.0 / (1.0 / n) > n, (1.0 / n) * n < 1.0}) > 1]
+
+
+def weights_via_weigh_target(bt, strat, w0, ds):
+    """temp['weights'] as WeighTarget leaves it when the user's target frame holds whole numbers (an int64 frame)"""
+    import pandas as pd
+
+    df = pd.DataFrame({k: [int(v)] * len(ds) for k, v in w0.items()}, index=interp.mk_dates(ds))
+    if len(w0):
+        assert all(str(t) == "int64" for t in df.dtypes)
+    strat.temp = {"selected": list(w0)}
+    if not bt.algos.WeighTarget(df)(strat):
+        raise Discard("WeighTarget found no row")
+
+
 def _minus(t, off):
     """t - DateOffset(**off) with calendar arithmetic (months clip to the month end), as pandas does"""
     from dateutil.relativedelta import relativedelta
@@ -156,6 +173,24 @@ def case_spec(draw, algo=None):
     elif algo == "LimitWeights":
         spec["weights"] = rand_weights(sel)
         p["limit"] = draw(st.sampled_from([0.1, 0.2, 0.25, 0.34, 0.5, 0.6, 0.75, 1.0]))
+        boundary = bool(sel) and draw(st.integers(0, 2)) == 0
+        if boundary:
+            # the boundary of feasibility: a cap equal to the equal weight (every weight ends on the cap)
+            p["limit"] = 1.0 / len(sel)
+        if sel and (boundary or draw(st.booleans())):
+            # weights as a volatility-type weigher computes them: arbitrary positive numbers divided by their sum (the float total is then
+            # 1 - ulp, 1 or 1 + ulp rather than the exact ratios of small integers above)
+            arr = np.array([draw(st.floats(0.05, 20.0, allow_nan=False, allow_infinity=False)) for _ in sel], dtype=float)
+            spec["weights"] = {k: float(x) for k, x in zip(sel, arr / arr.sum())}
+        if boundary and draw(st.integers(0, 2)) == 0:
+            # many names: 1/n is rarely a float whose n-fold is exactly one (n = 49, 98, 103, ...), so "equal to the equal weight" sits
+            # on either side of feasibility by an ulp - capped at the limit or nothing, never an error
+            big = draw(st.one_of(st.integers(6, 120), st.sampled_from(FEASIBILITY_TESTS_DISAGREE)))
+            arr = np.array([draw(st.floats(0.05, 20.0, allow_nan=False, allow_infinity=False)) for _ in range(min(big, 6))] + [1.0 + 0.01 * i for i in range(max(0, big - 6))], dtype=float)
+            spec["weights"] = {"x%03d" % i: float(x) for i, x in enumerate(arr / arr.sum())}
+            p["limit"] = 1.0 / big
+        # weights arrive as a plain dict (WeighEqually, WeighSpecified) or as a pandas Series of numpy floats (WeighInvVol, WeighERC, WeighMeanVar)
+        spec["weights_as"] = draw(st.sampled_from(["dict", "series", "series"] if boundary else ["dict", "series"]))
     elif algo == "LimitDeltas":
         held = draw(st.lists(st.sampled_from(tickers), min_size=0, max_size=len(tickers), unique=True))
         spec["live"] = rand_weights(held, short=draw(st.booleans()), total=draw(st.sampled_from([1.0, 0.9, 0.5])))
@@ -166,6 +201,10 @@ def case_spec(draw, algo=None):
             p["limit"] = draw(st.sampled_from([0.0, 0.01, 0.05, 0.1, 0.3, 1.0]))
         else:
             p["limit"] = {t: draw(st.sampled_from([0.01, 0.05, 0.2])) for t in draw(st.lists(st.sampled_from(tickers), min_size=0, max_size=len(tickers), unique=True))}
+        if sel and draw(st.integers(0, 4)) == 0:
+            # the weights come from WeighTarget reading a frame of whole numbers (all-in / all-out / long-short signals typed as integers)
+            spec["weights"] = {k: draw(st.sampled_from([1, 0, -1, 1])) for k in sel}
+            spec["weights_via"] = "weigh_target_int"
     elif algo == "TargetVol":
         p["target"] = draw(st.sampled_from([0.05, 0.1, 0.2, 0.35]))
         p["lookback"] = lb
@@ -178,6 +217,10 @@ def case_spec(draw, algo=None):
         for j in range(k0, min(n, k0 + 3)):
             keys = draw(st.lists(st.sampled_from(tickers), min_size=0, max_size=len(tickers), unique=True))
             seq.append([j, rand_weights(keys, short=draw(st.booleans()))])
+        if draw(st.integers(0, 3)) == 0:
+            # the weights come from WeighTarget reading a frame of whole numbers (all-in / long-short signals typed as integers)
+            seq = [[j, {k: draw(st.sampled_from([1, 1, 0, -1])) for k in w_}] for j, w_ in seq]
+            spec["weights_via"] = "weigh_target_int"
         spec["sequence"] = seq
     elif algo == "PTE_Rebalance":
         p["cap"] = draw(st.sampled_from([0.0, 0.001, 0.01, 0.05, 0.2, 10.0]))
@@ -245,7 +288,14 @@ def case_weigh(ctx, spec):
     strat.temp = {"selected": list(sel)}
     if "weights" in spec:
         strat.temp["weights"] = dict(spec["weights"])
-    labs = [name, "n=%d" % min(len(sel), 3)]
+        if spec.get("weights_via") == "weigh_target_int" and spec["weights"]:
+            weights_via_weigh_target(bt, strat, spec["weights"], ds)
+            strat.temp["selected"] = list(sel)
+        if spec.get("weights_as") == "series":
+            import pandas as pd
+
+            strat.temp["weights"] = pd.Series(spec["weights"], dtype=float)
+    labs = [name, "n=%d" % min(len(sel), 3)] + (["weights_as_series"] if spec.get("weights_as") == "series" else []) + (["weights_from_integer_target_frame"] if spec.get("weights_via") else [])
 
     def call(algo):
         try:
@@ -397,10 +447,15 @@ def case_weigh(ctx, spec):
         lim = p["limit"]
         if not w0:
             return {"nontrivial": False, "labels": labs}
-        if lim < 1.0 / len(w0):
-            if w != {}:
+        from fractions import Fraction
+
+        room = Fraction(lim) * len(w0)  # exact: the most that len(w0) weights of at most lim can add up to
+        if room < 1:
+            if w == {}:
+                return {"nontrivial": False, "labels": labs + ["infeasible"] + (["infeasible_by_an_ulp"] if room > 1 - Fraction(1, 10**12) else [])}
+            if room < 1 - Fraction(1, 10**12):
                 raise Violation("LimitWeights(%s) on %d weights should give {} but gave %s" % (lim, len(w0), w), signature=sig + ":infeasible")
-            return {"nontrivial": False, "labels": labs + ["infeasible"]}
+            # short of one by less than the tolerance of the total: capping everything at the limit is as good an answer
         if set(w) != set(w0):
             raise Violation("LimitWeights keys changed: %s -> %s" % (sorted(w0), sorted(w)), signature=sig + ":keys")
         v = np.array([w[k] for k in w0])
@@ -418,7 +473,7 @@ def case_weigh(ctx, spec):
         capped = any(w0[k] > lim + 1e-12 for k in w0)
         if not capped and any(abs(w[k] - w0[k]) > 1e-12 for k in w0):
             raise Violation("LimitWeights(%s) changed weights that were all within the cap: %s -> %s" % (lim, w0, w), signature=sig + ":changed")
-        return {"nontrivial": capped, "labels": labs + (["capped"] if capped else [])}
+        return {"nontrivial": capped, "labels": labs + (["capped"] if capped else []) + (["cap_equals_equal_weight"] if lim == 1.0 / len(w0) else [])}
     if name == "LimitDeltas":
         live = {c: strat.children[c].weight for c in strat.children}
         if spec.get("pending_flow"):
@@ -458,6 +513,8 @@ def case_weigh(ctx, spec):
             for d in b.dates[: j + 2]:
                 strat.update(d)
             strat.temp = {"weights": dict(w0)}
+            if spec.get("weights_via") == "weigh_target_int" and w0:
+                weights_via_weigh_target(bt, strat, w0, ds)
             call(algo)
             w = wdict(strat.temp["weights"])
             if not w0:
